@@ -107,6 +107,9 @@ def mk_place(base, proj):
                 base = base[1]
                 continue
         elif isinstance(e, tuple) and e[0] == "f":
+            if base[0] == "closure" and e[1] < len(base[2]):
+                base = base[2][e[1]]  # captured variable of a closure built on this path
+                continue
             if base[0] == "agg" and e[1] < len(base[3]):
                 base = base[3][e[1]]
                 continue
@@ -309,7 +312,7 @@ class Walker:
             t = self.place(st, r["p"])
             if t[0] == "agg":
                 return ("c", "discr", ("variant", t[1], t[2], t[4] if len(t) > 4 else None))
-            return ("discr", t, r.get("nv", -1), r.get("ety", ""))
+            return ("discr", t, r.get("nv", -1), r.get("ety", "").split("<")[0])
         if k == "agg":
             ops = tuple(self.operand(st, o) for o in r["ops"])
             if "adt" in r:
@@ -341,6 +344,127 @@ class Walker:
         self.finals.append(st)
         if len(self.paths) > self.max_paths:
             raise PathBudget("%s: more than %d paths" % (self.b.path, self.max_paths))
+
+    # ---- std combinators as the matches they abbreviate -------------------------------------------------
+    STD_MODELS = {
+        ("Option", "and_then"): ("none", "apply"),
+        ("Option", "map"): ("none", "some(apply)"),
+        ("Option", "map_or"): ("arg1", "apply2"),
+        ("Option", "unwrap_or"): ("arg1", "payload"),
+        ("Option", "ok_or"): ("err(arg1)", "ok(payload)"),
+        ("Option", "unwrap_or_default"): None,
+        ("Result", "map_err"): ("ok(payload)", "err(apply)"),
+        ("Result", "map"): ("ok(apply)", "err(payload)"),
+        ("Result", "ok"): ("some(payload)", "none"),
+        ("Result", "unwrap_or"): ("payload", "arg1"),
+        ("Option", "unwrap_or_else"): ("apply0", "payload"),
+        ("Option", "ok_or_else"): ("err(apply0)", "ok(payload)"),
+        ("Option", "is_some"): ("false", "true"),
+        ("Option", "is_none"): ("true", "false"),
+        ("Result", "is_ok"): ("true", "false"),
+        ("Result", "is_err"): ("false", "true"),
+    }
+
+    def _apply(self, st, bb, fval, args):
+        """Results of calling a function value: [(state, result term)] (inlined closure) or one opaque call."""
+        f0 = fval
+        if f0[0] == "closure" and self.inline is not None and self.depth < 2:
+            body = self.inline("closure:" + f0[1])
+            if body is not None:
+                sub = Walker(body, max_paths=32, inline=self.inline, depth=self.depth + 1)
+                if not sub.loop_assigned:
+                    init = State()
+                    init.env[1] = f0
+                    for ai, a in enumerate(args):
+                        init.env[ai + 2] = a
+                    init.mem = dict(st.mem)
+                    init.known = dict(st.known)
+                    try:
+                        results = sub.run_from(init)
+                    except PathBudget:
+                        results = None
+                    if results is not None and all(ev and ev[-1][0] == "ret" for ev, _ in results):
+                        out = []
+                        for ev, fin in results:
+                            s2 = st.fork()
+                            s2.events.extend((e[0], ("in", bb, e[1])) + tuple(e[2:]) for e in ev[:-1])
+                            s2.mem = dict(fin.mem)
+                            s2.known = dict(fin.known)
+                            out.append((s2, ev[-1][2]))
+                        return out
+        if f0[0] == "fn":
+            st.events.append(("call", ("ap", bb), f0[1], tuple(args), 0, f0[2] if len(f0) > 2 else ""))
+            return [(st, ("call", ("ap", bb), f0[1], tuple(args)))]
+        st.events.append(("call", ("ap", bb), ("indirect", f0), tuple(args), 0, ""))
+        return [(st, ("call", ("ap", bb), ("indirect", f0), tuple(args)))]
+
+    def model_std(self, st, bb, path, args, t):
+        import re as _re
+        m = _re.match(r"^(?:std|core)::(option::Option|result::Result)(?:::<[^>]*(?:<[^>]*>[^>]*)*>)?::(\w+)(?:::<.*>)?$", path)
+        if m is None:
+            return False
+        kind = "Option" if m.group(1).startswith("option") else "Result"
+        spec = self.STD_MODELS.get((kind, m.group(2)))
+        if spec is None or not args:
+            return False
+        X = args[0]
+        adt = "std::option::Option" if kind == "Option" else "std::result::Result"
+        names = ("None", "Some") if kind == "Option" else ("Ok", "Err")
+        if X[0] == "agg" and X[2] in names:
+            branches = [names.index(X[2])]
+        else:
+            scrut = ("discr", X, 2, adt)
+            kn = st.known.get(scrut)
+            if kn is not None and kn[0] == "eq":
+                branches = [kn[1]]
+            else:
+                branches = [0, 1]
+        dl, dproj = t["dest"]
+
+        def finish(s2, res):
+            if not dproj:
+                s2.env[dl] = res
+            else:
+                s2.mem[self.place_addr(s2, t["dest"])] = res
+            self._walk(t["t"], s2)
+
+        def wrap(tag, v):
+            if tag == "some":
+                return ("agg", "std::option::Option", "Some", (v,), 1)
+            if tag == "ok":
+                return ("agg", "std::result::Result", "Ok", (v,), 0)
+            if tag == "err":
+                return ("agg", "std::result::Result", "Err", (v,), 1)
+            return v
+
+        for bi, vi in enumerate(branches):
+            s2 = st.fork() if bi < len(branches) - 1 else st
+            if X[0] != "agg":
+                scrut = ("discr", X, 2, adt)
+                s2.events.append(("switch", bb, scrut, vi, (0, 1)))
+                s2.known[scrut] = ("eq", vi)
+            what = spec[vi]
+            has_payload = names[vi] != "None"
+            payload = None
+            if has_payload:
+                payload = X[3][0] if X[0] == "agg" else mk_place(X, (("d", vi, names[vi]), ("f", 0, "0", adt)))
+            mm = _re.match(r"^(\w+)\((.*)\)$", what)
+            tag, inner = (mm.group(1), mm.group(2)) if mm else ("", what)
+            if inner == "none":
+                finish(s2, ("agg", "std::option::Option", "None", (), 0))
+            elif inner == "payload":
+                finish(s2, wrap(tag, payload))
+            elif inner == "arg1":
+                finish(s2, wrap(tag, args[1]))
+            elif inner in ("true", "false"):
+                finish(s2, ("c", "bool", inner == "true"))
+            elif inner in ("apply", "apply2", "apply0"):
+                fval = args[2] if inner == "apply2" else args[1]
+                for s3, res in self._apply(s2, bb, fval, () if inner == "apply0" else (payload,)):
+                    finish(s3, wrap(tag, res))
+            else:
+                raise RuntimeError("bad std model " + what)
+        return True
 
     def _walk(self, bb, st):
         b = self.b
@@ -444,6 +568,8 @@ class Walker:
                         st.mem[self.place_addr(st, t["dest"])] = fb
                     bb = t["t"]
                     continue
+                if k == "call" and t.get("t") is not None and isinstance(path, str) and self.model_std(st, bb, path, args, t):
+                    return
                 callee = None
                 if self.inline is not None and isinstance(path, str) and self.depth < 2 and k == "call" and t.get("t") is not None:
                     callee = self.inline(path)
@@ -507,7 +633,7 @@ class Walker:
                     # ControlFlow::{Continue = 0, Break = 1} of `x?`: decide on x itself (Option: None = 0, Some = 1; Result: Ok = 0, Err = 1)
                     if term[1][2] == "Option":
                         vals = [(1 - v, tb) for v, tb in vals]
-                    term = ("discr", term[1][1], 2, "std::option::Option<?>" if term[1][2] == "Option" else "std::result::Result<?, ?>")
+                    term = ("discr", term[1][1], 2, "std::option::Option" if term[1][2] == "Option" else "std::result::Result")
                 listed = tuple(v for v, _ in vals)
                 cv = switch_const(term)
                 if cv is None and term[0] == "discr" and term[1][0] == "call" and isinstance(term[1][2], str) and term[1][2].endswith("Future>::poll"):
